@@ -180,18 +180,42 @@ def run(repo, rep, tier):
     exported = set()
     sn = gfs.params[0]
     locs = {}
+
+    def self_attrs_in(e):
+        return {a.attr for a in ast.walk(e) if isinstance(a, ast.Attribute) and isinstance(a.value, ast.Name) and a.value.id == sn}
+
+    def filtered_attrs(e):
+        """attributes of self that reach e only through a filtering comprehension (`{k: v for k, v in self.x.items() if ...}`)"""
+        out = set()
+        for c0 in ast.walk(e):
+            if isinstance(c0, (ast.DictComp, ast.ListComp, ast.SetComp, ast.GeneratorExp)) and any(g0.ifs for g0 in c0.generators):
+                for g0 in c0.generators:
+                    if g0.ifs:
+                        out |= self_attrs_in(g0.iter)
+        return out
+    part_locs, partial = {}, set()
     for n in walk_local_stmt(gfs.node):
         if isinstance(n, ast.Assign) and isinstance(n.targets[0], ast.Name):
-            locs[n.targets[0].id] = {a.attr for a in ast.walk(n.value) if isinstance(a, ast.Attribute) and isinstance(a.value, ast.Name) and a.value.id == sn}
+            locs[n.targets[0].id] = self_attrs_in(n.value)
+            part_locs[n.targets[0].id] = filtered_attrs(n.value)
     for n in walk_local_stmt(gfs.node):
         if isinstance(n, ast.Return) and n.value is not None:
+            partial |= filtered_attrs(n.value)
             for e in ast.walk(n.value):
                 if isinstance(e, ast.Attribute) and isinstance(e.value, ast.Name) and e.value.id == sn:
                     exported.add(e.attr)
                 if isinstance(e, ast.Name) and e.id in locs:
                     exported |= locs[e.id]
+                    partial |= part_locs.get(e.id, set())
     need = sorted(a for a in derived if a in read and not a.startswith("_"))
     for a in need:
+        if a in exported and a in partial and a != "features":
+            r2.ob(False, f"`{a}` exported through a filter")
+            rep.finding("R14.2", gfs, gfs.node, f"`self.{a}` is returned by get_features_specs only through a filtering comprehension: entries the "
+                        f"filter drops (e.g. the 1-dim specification of a column that only occurs inside n-dim features) are not passed on, "
+                        f"so a filler built from the returned specifications bins those axes with defaults and per-chunk histograms do not "
+                        f"add up", stmt=f"{a} exported in part")
+            continue
         ok = a in exported
         r2.ob(ok, f"data-derived attribute `{a}` (set in {derived[a].qualname}) exported by get_features_specs")
         if not ok:
@@ -369,6 +393,53 @@ def run(repo, rep, tier):
                                 f"list: for a multi-dimensional feature the data type / bin specification of another axis is used, so the axis is "
                                 f"binned with the wrong default and the histogram differs from filling the same tree directly",
                                 stmt=f"fixed position {ast.unparse(n)} instead of [{idxp[0]}]")
+    # ---------------- R14.7 every nesting primitive built for an axis wraps the histogram of the axes to its right
+    r7 = rep.rule("R14.7", "get_hist_bin: a primitive with a sub-aggregator parameter receives the histogram built so far, and every primitive the axis' quantity", floor=12)
+    ghb = None
+    for k in repo.classes_named("HistogramFillerBase") if hasattr(repo, "classes_named") else []:
+        ghb = k.methods.get("get_hist_bin") or ghb
+    if ghb is None:
+        for m0 in repo.modules.values():
+            if m0.name.startswith(DF):
+                for k in m0.classes.values():
+                    if "get_hist_bin" in k.methods:
+                        ghb = k.methods["get_hist_bin"]
+    if ghb is None:
+        raise AnalysisError("get_hist_bin not found")
+    rep.analysed_functions.add(ghb.construct)
+    from ..loader import primitives as _prims
+    from ..model import build_models as _bm
+    _pl, _ = _prims(repo)
+    _models = _bm(repo)
+    hist_p = ghb.params[1] if len(ghb.params) > 1 else None
+    quant_p = ghb.params[3] if len(ghb.params) > 3 else None
+    byname = {c.name: c for c in _pl}
+    for n in walk_local_stmt(ghb.node):
+        if not (isinstance(n, ast.Call) and isinstance(n.func, ast.Name) and n.func.id in byname):
+            continue
+        c = byname[n.func.id]
+        init = repo.own_method(c, "__init__")
+        ip = init.params[1:]
+        bound = {}
+        for pn, a in zip(ip, n.args):
+            bound[pn] = a
+        for kw in n.keywords:
+            if kw.arg:
+                bound[kw.arg] = kw.value
+        tmpl = _models[c.name].template or next((s0 for s0 in _models[c.name].slots if s0 in ip and s0 in ("cut", "value")), None)
+        tparam = tmpl if tmpl in ip else next((p for p in ip if p in ("value", "cut")), None)
+        if tparam is not None:
+            ok = tparam in bound and isinstance(bound[tparam], ast.Name) and bound[tparam].id == hist_p
+            r7.ob(ok, f"get_hist_bin: {c.name}({tparam}={hist_p})")
+            if not ok:
+                rep.finding("R14.7", ghb, n, f"`{norm(n)[:70]}` does not pass the histogram built so far (`{hist_p}`) as `{tparam}`: every axis to the "
+                            f"right of this one is replaced by the constructor's default (a plain Count), so a multi-dimensional feature no "
+                            f"longer equals the tree its specification describes", stmt=f"{c.name} without {tparam}={hist_p}")
+        if "quantity" in ip and quant_p:
+            ok = "quantity" in bound and isinstance(bound["quantity"], ast.Name) and bound["quantity"].id == quant_p
+            r7.ob(ok, f"get_hist_bin: {c.name}(quantity={quant_p})")
+            if not ok:
+                rep.finding("R14.7", ghb, n, f"`{norm(n)[:70]}` is not given the axis' quantity `{quant_p}`", stmt=f"{c.name} without quantity")
     # ---------------- R14.4
     fh = pd_m.functions.get("_fill_histogram")
     if fh is None:
